@@ -125,6 +125,8 @@ def document_level(ctx, depth):
         c.import_impl()
     cases = sc + cases
     sig_table(ctx, cases)
+    plain = docrun.make_cases(ctx, 4 if depth == 'quick' else 30, plain_notes=True, max_measures=2, kern_only=True)
+    transposed_documents(ctx, plain)
     docrun.run_option_sets(ctx, cases, [{'enc': 'akern', 'include': None, 'exclude': None}, {'enc': 'aekern', 'include': None, 'exclude': None}],
                            lambda case: [{}],
                            'the agnostic export of a document is not the kern export with the pitch letters converted under the clef in force for each note',
@@ -159,6 +161,31 @@ def sig_table(ctx, cases):
                      'the signature table of a node (the clef in force) is not its parent\'s table updated with the node itself', impl=list(bad[3:]))
 
 
+def transposed_documents(ctx, cases):
+    """documents whose pitches were rewritten by to_transposed (the whole spelling, accidental included, then sits in the PITCH part): their
+    agnostic export must be the agnostic export of the re-imported kern export of the same document"""
+    import kernpy as kp
+    from kernpy.core.tokenizers import Encoding
+    for case in cases:
+        if case.doc is None:
+            continue
+        for iv, dr in (('M3', 'up'), ('m3', 'down'), ('A4', 'up')):
+            def run():
+                src = kp.loads(case.text)[0]
+                t = src.to_transposed(iv, dr)
+                k = kp.dumps(t)
+                re = kp.loads(k)[0]
+                return {e: [kp.dumps(t, encoding=Encoding(e)), kp.dumps(re, encoding=Encoding(e))] for e in ('akern', 'aekern')}
+            got = call(run)
+            ctx.seen({'text': case.text, 'clause': 'transposed document, agnostic', 'interval': iv, 'direction': dr}, True)
+            if 'ok' not in got:
+                continue            # unspellable results etc.: C15's subject
+            for e, (a, b) in got['ok'].items():
+                if a != b:
+                    ctx.fail({'text': case.text, 'interval': iv, 'direction': dr, 'encoding': e, 'clause': 'agnostic export of a transposed document'},
+                             'the agnostic export of a transposed document differs from the agnostic export of its re-imported kern export', impl=a, expected=b)
+
+
 def token_level(ctx, depth):
     """the agnostic tokenisation of a note / chord under a clef differs from the kern one only in the pitch letters,
     each converted under that clef (naturals and display suffixes exist only here)"""
@@ -178,6 +205,8 @@ def token_level(ctx, depth):
         reqs.append({'op': 'abs.expect', 'cell': c, 'clef': clef})
         metas.append((c, clef))
     allc = set(TC)
+    # tokenizer OBJECTS carried along a spine: the clef of an agnostic tokenizer is reassigned at a clef change and further cells are tokenized
+    carried = {e: TokenizerFactory.create(e, token_categories=allc, last_clef_reference=ClefToken(clefs[0])) for e in ('akern', 'aekern')}
     for (c, clef), r in zip(metas, ctx.driver.ask(reqs)):
         t, o = tokobs.fresh_kern(r['text'])
         if t is None:
@@ -186,6 +215,16 @@ def token_level(ctx, depth):
         ctx.count('doc-level:' + c['k'])
         ctx.check({'cell': r['text'], 'clef': clef, 'clause': 'agnostic cell'}, impl, None, r['akern'], nontrivial=c['k'] in ('note', 'chord'),
                   what='agnostic export of a cell is not the kern export with only the pitch letters converted under the clef in force')
+        if 'ok' in impl:
+            for e, tk in carried.items():
+                def with_carried():
+                    tk.last_clef = clef
+                    return tk.tokenize(t)
+                fresh = call(lambda: TokenizerFactory.create(e, token_categories=allc, last_clef_reference=ClefToken(clef)).tokenize(t))
+                gotc = call(with_carried)
+                if gotc != fresh:
+                    ctx.fail({'cell': r['text'], 'clef': clef, 'encoding': e, 'clause': 'agnostic tokenizer object whose clef was reassigned'},
+                             'a tokenizer object whose last_clef was reassigned does not spell the cell under the new clef', impl=gotc, expected=fresh)
 
 
 def replay(ctx, payload):
